@@ -30,7 +30,9 @@ CONSTANTS Dims,          \* set of table dimensions to enumerate (subset of 1..3
           FullPos2D,     \* BOOLEAN: quarter points of every cell in 2-D (else first/last cell only)
           InteriorOnly,  \* BOOLEAN: only interior dyadic points (C16)
           ExFull,        \* BOOLEAN: extrapolate=TRUE scenarios use every position (else boundary / outside / one midpoint)
-          ExSet          \* subset of BOOLEAN: values of the extrapolate flag
+          ExSet,         \* subset of BOOLEAN: values of the extrapolate flag
+          HistPos,       \* BOOLEAN: two query positions per axis only (base scenarios of the query histories)
+          BKind          \* "none" | "node" | "mid": a second query point B of the same scenario (InterpHist.tla)
 
 Coords == -4..4
 Classes == {"lin", "quad", "cub"}
@@ -124,7 +126,8 @@ PosAxis(g, rs, full, reduced) ==
               ELSE {[kd |-> "q1", ix |-> 1], [kd |-> "q3", ix |-> n - 1]}
         outs == {[kd |-> "below", ix |-> 0], [kd |-> "above", ix |-> 0]}
         all == IF InteriorOnly THEN mids \cup qs ELSE nodes \cup mids \cup qs \cup outs
-    IN IF reduced THEN all \cap ({[kd |-> "node", ix |-> 1], [kd |-> "node", ix |-> n], [kd |-> "mid", ix |-> 1]} \cup outs)
+    IN IF HistPos THEN {[kd |-> "mid", ix |-> 1], [kd |-> IF rs = 4 THEN "q3" ELSE "mid", ix |-> n - 1]}
+       ELSE IF reduced THEN all \cap ({[kd |-> "node", ix |-> 1], [kd |-> "node", ix |-> n], [kd |-> "mid", ix |-> 1]} \cup outs)
        ELSE all
 PosTuples(s) ==
     LET P(i) == PosAxis(s.g[i], s.R, s.dim = 1 \/ FullPos2D, s.ex /\ ~ExFull)
@@ -149,6 +152,15 @@ Hat(s, X) == [i \in 1..s.dim |-> LET hn == HatNum(s.g[i], s.R, X[i])
                                      hd == HatDen(s.g[i], s.R, X[i])
                                  IN [j \in 1..Len(s.g[i]) |-> Q(hn[j], hd)]]
 
+\* --- a second query point B of the same scenario (histories of queries on one object: InterpHist.tla) --
+\* "node": the second node of every axis (exact for every method);  "mid": the midpoint of the last cell of
+\* every axis, of the first cell where the point A lies in the last one (another cell than A on every axis)
+BPosOf(s) == [i \in 1..s.dim |->
+                 IF BKind = "node" THEN [kd |-> "node", ix |-> 2]
+                 ELSE LET n == Len(s.g[i])
+                      IN [kd |-> "mid", ix |-> IF s.pos[i].kd # "node" /\ s.pos[i].ix = n - 1 THEN 1 ELSE n - 1]]
+BXOf(s) == LET bp == BPosOf(s) IN [i \in 1..s.dim |-> XOf(s.g[i], s.R, bp[i])]
+
 \* --- expected observable ---------------------------------------------------------------------------
 Out(s) == LET inb == InGrid(s, s.X)
               err == ~s.ex /\ ~inb
@@ -156,7 +168,9 @@ Out(s) == LET inb == InGrid(s, s.X)
               interior |-> \A i \in 1..s.dim : s.pos[i].kd \in {"mid", "q1", "q3"},
               v |-> IF err THEN NaN ELSE Value(s, s.X),
               d |-> IF err THEN <<>> ELSE Deriv(s, s.X),
-              w |-> IF err \/ s.cls # "lin" THEN <<>> ELSE Hat(s, s.X)]
+              w |-> IF err \/ s.cls # "lin" THEN <<>> ELSE Hat(s, s.X),
+              b |-> IF BKind = "none" THEN <<>>
+                    ELSE LET bx == BXOf(s) IN [pos |-> BPosOf(s), X |-> bx, v |-> Value(s, bx), d |-> Deriv(s, bx)]]
 
 \* --- scenario enumeration: Init fixes (dimension, class, polynomial, extrapolate, grid); the single
 \* Choose step picks the query point, so that TLC's workers share the evaluation work -------------------
@@ -217,5 +231,119 @@ HatLaw == (~out.err /\ scen.cls = "lin") =>
                /\ SumTo([m \in 1..n |-> W(m)], n) = hd
                /\ out.inb => \A i \in 1..s.dim : \A j \in 1..5 : hn[i][j] >= 0
                /\ \A i \in 1..s.dim : \A j \in 1..Len(s.g[i]) : out.w[i][j] = Q(hn[i][j], HD(i))
+\* the second point lies in the grid; with BKind = "mid" in another cell than an interior point A on every axis
+BLaw == (BKind # "none" /\ stage = 1) =>
+            /\ InGrid(scen, out.b.X)
+            /\ out.interior => \A i \in 1..scen.dim : out.b.X[i] # scen.X[i]
+            /\ (BKind = "mid" /\ out.interior) =>
+                   \A i \in 1..scen.dim : CellOf(scen.g[i], scen.R, out.b.X[i]) # CellOf(scen.g[i], scen.R, scen.X[i])
+            /\ (BKind = "node") => out.b.v = R(TableAt(scen, [i \in 1..3 |-> 2]))
 Export == stage = 1 => PrintT(<<"EXP", ToJson([s |-> scen, o |-> out])>>)
+(***************************************************************************)
+(* Akima's interpolant (1970) on a 1-D grid with the documented smoothing  *)
+(* of the absolute value (option delta_x > 0: |a| is replaced by           *)
+(* a^2/(2 delta) + delta/2 for |a| < delta), C16.  The interpolant is not  *)
+(* linear in the table values, so the derivative with respect to them is   *)
+(* defined here the only way a derivative can be: by differentiating the   *)
+(* definition.  Every quantity is a dual number  [v |-> value, d |-> the   *)
+(* vector of its derivatives with respect to the table values T_1..T_n],   *)
+(* all exact rationals; the arithmetic below is the sum / product /        *)
+(* quotient rule.                                                          *)
+(*   segment slopes  m_j = (T_{j+1} - T_j)/(g_{j+1} - g_j), continued      *)
+(*     beyond both ends by  m_0 = 2 m_1 - m_2,  m_{-1} = 2 m_0 - m_1  etc. *)
+(*   node slope  b_i = (|m_{i+1} - m_i| m_{i-1} + |m_{i-1} - m_{i-2}| m_i) *)
+(*                     / (|m_{i+1} - m_i| + |m_{i-1} - m_{i-2}|)           *)
+(*   cell i, t = x - g_i, h = g_{i+1} - g_i:                               *)
+(*     y = T_i + b_i t + (3 m_i - 2 b_i - b_{i+1}) t^2/h                   *)
+(*             + (b_i + b_{i+1} - 2 m_i) t^3/h^2                           *)
+(* With delta > 0 no denominator vanishes.                                 *)
+(***************************************************************************)
+CONSTANTS AkMod, AkRem     \* table perturbations e with AkHash(e) % AkMod = AkRem % AkMod   (AkMod = 1: all)
+
+DVar(n, j, c) == [v |-> c, d |-> [k \in 1..n |-> IF k = j THEN One ELSE Zero]]
+DAdd(a, b) == [v |-> Add(a.v, b.v), d |-> [k \in DOMAIN a.d |-> Add(a.d[k], b.d[k])]]
+DSub(a, b) == [v |-> Sub(a.v, b.v), d |-> [k \in DOMAIN a.d |-> Sub(a.d[k], b.d[k])]]
+DScale(c, a) == [v |-> Mul(c, a.v), d |-> [k \in DOMAIN a.d |-> Mul(c, a.d[k])]]
+DMul(a, b) == [v |-> Mul(a.v, b.v), d |-> [k \in DOMAIN a.d |-> Add(Mul(a.v, b.d[k]), Mul(b.v, a.d[k]))]]
+DDiv(a, b) == [v |-> Div(a.v, b.v),
+               d |-> [k \in DOMAIN a.d |-> Div(Sub(Mul(a.d[k], b.v), Mul(a.v, b.d[k])), Mul(b.v, b.v))]]
+\* the smoothed absolute value and its derivative
+Rounded(a, dl) == Lt(a.v, dl) /\ Gt(a.v, Neg(dl))
+DAbsS(a, dl) == IF ~Rounded(a, dl) THEN (IF a.v[1] >= 0 THEN a ELSE DScale(R(-1), a))
+                ELSE [v |-> Add(Div(Mul(a.v, a.v), Mul(R(2), dl)), Div(dl, R(2))),
+                      d |-> [k \in DOMAIN a.d |-> Div(Mul(a.v, a.d[k]), dl)]]
+
+AkGrids == << <<-4, -3, -1, 0, 2, 3>>,          \* 6 points, spacings 1 and 2: one cell with all five slopes from data
+              <<-3, -2, -1, 0, 1, 2>>,          \* 6 points, uniform
+              <<-4, -2, -1, 0>>,                \* 4 points (the minimum): every cell uses a continued slope
+              <<0, 1, 3, 4, 6>>,                \* 5 points
+              <<-4, -3, -2, 0, 1, 3, 4>> >>     \* 7 points
+\* delta_x = 1/2, 1 and (uniform grid only: the numerators stay below 2^31) 2
+AkDeltas(gi) == {<<1, 2>>, <<1, 1>>} \cup (IF gi = 2 THEN {<<2, 1>>} ELSE {})
+
+\* the spline of scenario s (grid g, integer table T, delta = dl) in cell s.cell at the scaled coordinate s.X (R = 4)
+Akima(s) ==
+    LET g == s.g
+        n == Len(g)
+        dl == Q(s.dl[1], s.dl[2])
+        TD == [j \in 1..n |-> DVar(n, j, R(s.T[j]))]
+        seg == [j \in 1..n - 1 |-> DScale(Q(1, g[j + 1] - g[j]), DSub(TD[j + 1], TD[j]))]
+        M0 == DSub(DScale(R(2), seg[1]), seg[2])
+        Mm1 == DSub(DScale(R(2), M0), seg[1])
+        Mn == DSub(DScale(R(2), seg[n - 1]), seg[n - 2])
+        Mn1 == DSub(DScale(R(2), Mn), seg[n - 1])
+        MM(j) == CASE j = -1 -> Mm1 [] j = 0 -> M0 [] j = n -> Mn [] j = n + 1 -> Mn1 [] OTHER -> seg[j]
+        i == s.cell
+        m1 == MM(i - 2)
+        m2 == MM(i - 1)
+        m3 == MM(i)
+        m4 == MM(i + 1)
+        m5 == MM(i + 2)
+        a2 == DSub(m4, m3)
+        a31 == DSub(m2, m1)
+        a32 == DSub(m5, m4)
+        a4 == DSub(m3, m2)
+        w2 == DAbsS(a2, dl)
+        w31 == DAbsS(a31, dl)
+        w32 == DAbsS(a32, dl)
+        w4 == DAbsS(a4, dl)
+        b == DDiv(DAdd(DMul(m2, w2), DMul(m3, w31)), DAdd(w2, w31))
+        bp == DDiv(DAdd(DMul(m3, w32), DMul(m4, w4)), DAdd(w32, w4))
+        h == R(g[i + 1] - g[i])
+        c == DScale(Inv(h), DSub(DSub(DScale(R(3), m3), DScale(R(2), b)), bp))
+        d == DScale(Inv(Mul(h, h)), DSub(DAdd(b, bp), DScale(R(2), m3)))
+        t == Q(s.X - 4 * g[i], 4)
+        t2 == Mul(t, t)
+        t3 == Mul(t2, t)
+        y == DAdd(DAdd(TD[i], DScale(t, b)), DAdd(DScale(t2, c), DScale(t3, d)))
+    IN [v |-> y.v,
+        dx |-> Add(b.v, Add(Mul(R(2), Mul(c.v, t)), Mul(R(3), Mul(d.v, t2)))),
+        dT |-> y.d,
+        \* number of weights taken in the rounded section with a nonzero argument (where the smoothing matters)
+        rounded |-> Cardinality({k \in 1..4 : LET a == <<a2, a31, a32, a4>>[k] IN Rounded(a, dl) /\ a.v # Zero}),
+        b |-> <<b.v, bp.v>>]
+
+AkHash(e) == SumTo([j \in 1..Len(e) |-> (j * j + 3) * (e[j] + 2)], Len(e))
+\* table: the line 2 x through the nodes, each value moved by e_j in {-1, 0, 1}
+AkMk(gi, dl, e, cell, X) == [fam |-> "akima", gi |-> gi, g |-> AkGrids[gi], dl |-> dl, e |-> e,
+                             T |-> [j \in 1..Len(e) |-> 2 * AkGrids[gi][j] + e[j]], cell |-> cell, X |-> X]
+InitAk == /\ stage = 0
+          /\ \E gi \in 1..Len(AkGrids) : \E dl \in AkDeltas(gi) :
+                scen = AkMk(gi, dl, [j \in 1..Len(AkGrids[gi]) |-> 0], 1, 2 * (AkGrids[gi][1] + AkGrids[gi][2]))
+          /\ out = Akima(scen)
+ChooseAk == /\ stage = 0 /\ stage' = 1
+            /\ \E e \in [1..Len(scen.g) -> {-1, 0, 1}], cell \in 1..Len(scen.g) - 1, kd \in {"mid", "q1", "q3"} :
+                  /\ AkHash(e) % AkMod = AkRem % AkMod
+                  /\ scen' = AkMk(scen.gi, scen.dl, e, cell, XOf(scen.g, 4, [kd |-> kd, ix |-> cell]))
+            /\ out' = Akima(scen')
+NextAk == ChooseAk
+
+\* laws of the definition: adding a constant to the table adds it to the value (the derivatives sum to 1); adding the
+\* line a x adds a x (the derivatives weighted with the nodes give x): the weights only see slope differences
+AkLaw == LET n == Len(scen.g)
+         IN /\ SumSeq(out.dT) = One
+            /\ SumSeq([k \in 1..n |-> Mul(R(scen.g[k]), out.dT[k])]) = Q(scen.X, 4)
+            \* an unperturbed table is the line itself
+            /\ (\A j \in 1..n : scen.e[j] = 0) => (out.v = Q(2 * scen.X, 4) /\ out.dx = R(2))
+ExportAk == stage = 1 => PrintT(<<"AK", ToJson([s |-> scen, o |-> out])>>)
 =============================================================================
